@@ -408,6 +408,7 @@ func (w *World) obsPayload(p *Payload) string {
 	return s
 }
 func (w *World) hookBroadcast(n *Node, p *Payload) {
+	p.atStart = n.curWhat == "Start"
 	w.stats.KindsSent[typeShort[p.typ]]++
 	w.logf("n%d broadcast %s", n.id, p)
 	if w.obsOn {
@@ -874,7 +875,13 @@ func (w *World) endCheck() {
 		if p.typ == dbft.PrepareRequestType && p.srcNode >= 0 && w.nodes[p.srcNode].kind == kAmnesia {
 			k := [3]uint64{uint64(p.height), uint64(p.view), uint64(p.srcNode)}
 			if old, ok := seenProp[k]; ok && old != p.Hash() {
-				key = o + "/stuck/restarted-primary-reproposed"
+				if p.atStart {
+					// the known dBFT 2.0 gap: Start of a restarted primary proposes at once, before it can learn its earlier proposal
+					key = o + "/stuck/restarted-primary-reproposed"
+				} else if key == o+"/stuck" {
+					// it had every chance to learn its earlier proposal from recovery messages and proposed again all the same
+					key = o + "/stuck/restarted-primary-reproposed-after-recovery"
+				}
 			}
 			seenProp[k] = p.Hash()
 		}
